@@ -14,6 +14,9 @@ every run by `harness/cmd/c11`.
   a client without a pool cannot unlock;
 * `others_preserve_stake`, `lock_unlock_roundtrip` — over ANY interleaving of other clients' lock / unlock / collect and
   of reward payments, a staker's pool balance stays what it locked, and unlocking returns it with the accrued rewards;
+* `unlock_refunds_stake_any_status` — the refund does not depend on the delegate pool's status: a pool marked Deleted by
+  zcnsc `DeleteAuthorizer` (which pays nothing back) is refunded in full by the staker's later unlock;
+  `deleteAuthorizer_preserves_stake`; `delete-authorizer` is one of the interleaved operations of the round trip.
 All five provider kinds are covered. (Until repo commit fc9e9de the property was false for authorizers: `zcnsc.StakePool`
 inherited `stakepool.StakePool.Save`, the first lock rewrote the record in a layout `zcnsc` read back as empty, the stake
 could never be unlocked; `zcnsc.StakePool.Save` now stores the layout `getStakePool` reads. The oracle of `harness/cmd/c11`
@@ -144,6 +147,26 @@ theorem unlock_returns_all (cfg : Cfg) (s : State) (k : Kind) (pid : Id) (t : Tx
     show (Ledger.get (bumpNonce a t.client) j).balance = _
     rw [bumpNonce_bal]; exact b3 j hj1 hj2
 
+/-- **unlock_refunds_stake_any_status**: in EVERY state — whatever the status of the delegate pool (Active, or marked
+Deleted by a `delete-authorizer` in between) and whatever happened to the provider record — a successful unlock of a pool
+holding balance `b` transfers exactly `b` (plus the minted reward, plus the service charge for the delegate wallet) to its
+delegate, and the pool is gone afterwards. (`unlock_returns_all` quantifies over all states; this is its refund clause
+with the status made explicit.) -/
+theorem unlock_refunds_stake_any_status (cfg : Cfg) (s : State) (k : Kind) (pid : Id) (t : Txn) (wall : Nat)
+    (hc : t.client ≠ k.sc) (sp : SP) (dp : DP) (hl : loadSP s k pid = .ok sp) (hd : kvGet sp.pools t.client = some dp)
+    (hok : (unlockTxn cfg s k pid t wall).2 = .ok) :
+    (Ledger.get (unlockTxn cfg s k pid t wall).1.accts t.client).balance =
+      (Ledger.get s.accts t.client).balance + (chargeOf sp t.client + dp.reward + dp.balance) ∧
+    ((kvGet (unlockTxn cfg s k pid t wall).1.sps (k, pid)).bind fun sp' => kvGet sp'.pools t.client) = none := by
+  obtain ⟨sp0, dp0, sp', hl0, hd0, hs', hpay, _, _, hgone, _⟩ := unlock_returns_all cfg s k pid t wall hc hok
+  rw [hl] at hl0
+  injection hl0 with hl0
+  subst hl0
+  rw [hd] at hd0
+  injection hd0 with hd0
+  subst hd0
+  exact ⟨hpay, by rw [hs']; exact hgone⟩
+
 /-! ## only_owner_unlocks -/
 
 theorem stakeOfClient_accts (s : State) (a : Ledger.Accts) (kk : Kind × Id) (c : Id) :
@@ -212,6 +235,46 @@ theorem reward_preserves (s s' : State) (k : Kind) (pid : Id) (v : Nat) (c : Id)
       simp only
       exact kvGet_writeRewards _ _ _
 
+theorem kvGet_map_deleted (pools : List (Id × DP)) (c : Id) :
+    (kvGet (pools.map fun q => (q.1, ({ q.2 with deleted := true } : DP))) c).map (fun d => (d.balance, d.stakedAt)) =
+      (kvGet pools c).map (fun d => (d.balance, d.stakedAt)) := by
+  rw [kvGet_map_val pools (fun _ d => ({ d with deleted := true } : DP)) c]
+  cases kvGet pools c <;> rfl
+
+/-- zcnsc `DeleteAuthorizer` (by anybody, successful or not) leaves every client's stake — balance and staking time — in
+every stake-pool record as it was (it only sets the Deleted status), and moves no balance. -/
+theorem deleteAuthorizer_preserves_stake (cfg : Cfg) (s : State) (r : Req) (c : Id) (kk : Kind × Id) :
+    stakeOfClient (deleteAuthorizerTxn cfg s r).1 kk c = stakeOfClient s kk c ∧
+    ∀ j, (Ledger.get (deleteAuthorizerTxn cfg s r).1.accts j).balance = (Ledger.get s.accts j).balance := by
+  unfold deleteAuthorizerTxn
+  cases hd : deleteAuthorizer cfg s r with
+  | error e =>
+    have : exec s r.caller (noTransfers (.error e)) = ({ s with accts := bumpNonce s.accts r.caller }, .fail e) := rfl
+    rw [this]
+    exact ⟨rfl, fun j => bumpNonce_bal _ _ _⟩
+  | ok s' =>
+    have : exec s r.caller (noTransfers (.ok s')) = ({ s' with accts := bumpNonce s.accts r.caller }, .ok) := rfl
+    rw [this]
+    refine ⟨?_, fun j => bumpNonce_bal _ _ _⟩
+    rw [stakeOfClient_accts]
+    unfold deleteAuthorizer at hd
+    cases hp : kvGet s.provs r.reqId with
+    | none => simp [hp] at hd
+    | some p =>
+      simp only [hp] at hd
+      split at hd
+      · cases hd
+      · cases hs : getSP s .authorizer r.reqId with
+        | none => simp [hs] at hd
+        | some sp =>
+          simp only [hs] at hd
+          split at hd
+          · cases hd
+          · injection hd with hd
+            rw [← hd]
+            show stakeOfClient (putSP s .authorizer r.reqId _) kk c = _
+            exact (stakeOfClient_put s .authorizer r.reqId sp _ kk c hs (kvGet_map_deleted sp.pools c)).1
+
 /-- **only_owner_unlocks.** (a) A client that owns no delegate pool in the record cannot unlock: the call fails and moves
 nothing. (b) An unlock by `c` leaves every OTHER client's stake in every record, and every other client's balance,
 exactly as it was — whether it succeeds or not. -/
@@ -242,15 +305,17 @@ inductive Op where
   | unlock (k : Kind) (pid : Id) (t : Txn) (wall : Nat)
   | collect (k : Kind) (pid : Id) (client : Id)
   | reward (k : Kind) (pid : Id) (v : Nat)
+  | delauth (r : Req)          -- zcnsc delete-authorizer, by anybody (also by `c` itself)
 
 def Op.actor : Op → Option Id
   | .lock _ _ t => some t.client
   | .unlock _ _ t _ => some t.client
   | .collect _ _ c => some c
   | .reward _ _ _ => none
+  | .delauth _ => none
 
 def Op.kind : Op → Kind
-  | .lock k _ _ => k | .unlock k _ _ _ => k | .collect k _ _ => k | .reward k _ _ => k
+  | .lock k _ _ => k | .unlock k _ _ _ => k | .collect k _ _ => k | .reward k _ _ => k | .delauth _ => .authorizer
 
 def step (cfg : Cfg) (s : State) : Op → State
   | .lock k pid t => (lockTxn cfg s k pid t).1
@@ -259,6 +324,7 @@ def step (cfg : Cfg) (s : State) : Op → State
   | .reward k pid v => match payReward s k pid v with
     | .ok s' => s'
     | .error _ => s
+  | .delauth r => (deleteAuthorizerTxn cfg s r).1
 
 def run (cfg : Cfg) (s : State) (ops : List Op) : State := ops.foldl (step cfg) s
 
@@ -273,9 +339,10 @@ theorem step_preserves (cfg : Cfg) (s : State) (op : Op) (c : Id) (ha : op.actor
     cases h : payReward s k pid v with
     | error e => simp only [step, h]
     | ok s' => simp only [step, h]; exact reward_preserves s s' k pid v c kk h
+  | delauth r => exact (deleteAuthorizer_preserves_stake cfg s r c kk).1
 
-/-- **others_preserve_stake**: over ANY interleaving of other clients' lock / unlock / collect operations and of reward
-payments (on providers of all five kinds), `c`'s stake — balance and staking time — in every stake-pool
+/-- **others_preserve_stake**: over ANY interleaving of other clients' lock / unlock / collect operations, of reward
+payments (on providers of all five kinds) and of `delete-authorizer` calls by anybody, `c`'s stake — balance and staking time — in every stake-pool
 record is unchanged, and no delegate pool of `c` appears or disappears. (`collect` by `c` itself is allowed: it only
 zeroes rewards.) -/
 theorem others_preserve_stake (cfg : Cfg) (c : Id) (kk : Kind × Id) : ∀ (ops : List Op) (s : State),
@@ -294,8 +361,8 @@ theorem others_preserve_stake (cfg : Cfg) (c : Id) (kk : Kind × Id) : ∀ (ops 
     · exact collect_other_preserves s k pid c c kk
 
 /-- **lock_unlock_roundtrip.** `c` locks `v` into a fresh delegate pool of provider `(k, pid)`; then ANY sequence of other
-clients' locks / unlocks / collects (on any provider of any kind), reward payments and `c`'s own collects; then `c`
-unlocks successfully. The pool it empties still holds exactly `v`, and `c` receives exactly `v` plus the reward then
+clients' locks / unlocks / collects (on any provider of any kind), reward payments, `delete-authorizer` calls (which
+mark the pools Deleted without paying anything back) and `c`'s own collects; then `c` unlocks successfully. The pool it empties still holds exactly `v`, and `c` receives exactly `v` plus the reward then
 accrued in its pool (plus the provider's service charge if `c` is the delegate wallet). Slashing (kill / shut-down, C23)
 is the only other writer of a pool balance and is not part of `ops`. -/
 theorem lock_unlock_roundtrip (cfg : Cfg) (s : State) (k : Kind) (pid : Id) (t t' : Txn) (wall : Nat) (ops : List Op)
@@ -347,7 +414,7 @@ def spEmpty (wallet : Id) : SP :=
 
 /-- authorizer 40 (wallet 60) and blobber 30 (wallet 50), freshly registered; clients 41, 42 hold 10 tokens each. -/
 def sL : State :=
-  { accts := [(41, ⟨100000000000, 0⟩), (42, ⟨100000000000, 0⟩), (1, ⟨1000000, 0⟩), (2, ⟨0, 0⟩)],
+  { accts := [(41, ⟨100000000000, 0⟩), (42, ⟨100000000000, 0⟩), (1, ⟨1000000, 0⟩), (2, ⟨1000000, 0⟩)],
     provs := [(40, ⟨.authorizer, false, false, false⟩), (30, ⟨.blobber, false, false, false⟩)],
     sps := [((.authorizer, 40), spEmpty 60), ((.blobber, 30), spEmpty 50)],
     vpart := [], order := [41, 42, 50, 60] }
@@ -363,6 +430,21 @@ example :
     (Ledger.get (unlockTxn cfgL (run cfgL (lockTxn cfgL sL .authorizer 40 ⟨41, 50000000000, 1700000000⟩).1
       [.lock .authorizer 40 ⟨42, 50000000000, 1700000000⟩, .reward .authorizer 40 1000]) .authorizer 40 ⟨41, 0, 0⟩
       2000000000).1.accts 41).balance = 100000000450 := by
+  decide +kernel
+
+/-- the seeded sequence: lock 5 tokens on authorizer 40, a reward, `delete-authorizer` by the owner (the pool is now
+Deleted, nothing was paid), then the staker's unlock: it succeeds and returns the 5 tokens plus the reward share (900);
+a further lock into the Deleted pool is refused before that. -/
+example :
+    (deleteAuthorizerTxn cfgL (run cfgL (lockTxn cfgL sL .authorizer 40 ⟨41, 50000000000, 1700000000⟩).1
+      [.reward .authorizer 40 1000]) ⟨3, 40⟩).2 = .ok ∧
+    (lockTxn cfgL (run cfgL (lockTxn cfgL sL .authorizer 40 ⟨41, 50000000000, 1700000000⟩).1
+      [.reward .authorizer 40 1000, .delauth ⟨3, 40⟩]) .authorizer 40 ⟨41, 10000000000, 1700000000⟩).2 = .fail .lockDeleted ∧
+    (unlockTxn cfgL (run cfgL (lockTxn cfgL sL .authorizer 40 ⟨41, 50000000000, 1700000000⟩).1
+      [.reward .authorizer 40 1000, .delauth ⟨3, 40⟩]) .authorizer 40 ⟨41, 0, 0⟩ 2000000000).2 = .ok ∧
+    (Ledger.get (unlockTxn cfgL (run cfgL (lockTxn cfgL sL .authorizer 40 ⟨41, 50000000000, 1700000000⟩).1
+      [.reward .authorizer 40 1000, .delauth ⟨3, 40⟩]) .authorizer 40 ⟨41, 0, 0⟩ 2000000000).1.accts 41).balance
+      = 100000000900 := by
   decide +kernel
 
 -- the hypotheses of the four theorems are met by concrete runs on a blobber
